@@ -41,7 +41,7 @@ Definition refMetaFromTime (vr : Timeline.rep) (c : Timeline.tcfg) (F a time now
   let refTotDur := u64 (Timeline.repDuration vr) in
   let nrSegs := lenZ (Timeline.segs vr) in
   if a =? 0 then Timeline.TPanic "findRefSegMetaFromTime: integer divide by zero (rep.MediaTimescale)" else
-  let refTime := u64 (time * u64 (Timeline.ts vr)) / a in
+  let refTime := u64 (time * u64 (Timeline.ts vr) / a) in   (* mulDiv64: the product on 128 bits *)
   if refTotDur =? 0 then Timeline.TPanic "findRefSegMetaFromTime: integer divide by zero (refTotDur)" else
   let nrWraps := refTime / refTotDur in
   let wrapTime := u64 (nrWraps * refTotDur) in
